@@ -628,6 +628,9 @@ func (tr *Trans) applyContract(ct *Contract, fn *ssa.Function, sig *types.Signat
 				continue // another package's postcondition that serves other properties only
 			}
 		}
+		if p := tr.g.opts.Prop; p != "" && ct.External && len(en.Props) > 0 && !hasProp(en.Props, p) {
+			continue // an assumed library fact that only the named properties' proofs need (keeps other queries small)
+		}
 		tr.assumeClause(env, tr.rc, en.AST)
 	}
 	tr.callerAsserts("after", short, ord, args, res, pre, tr.st)
@@ -815,6 +818,22 @@ func (tr *Trans) nameAt(name string) (ssa.Value, bool) {
 		}
 	}
 	if found == nil {
+		// an address-taken struct variable (var b strings.Builder): the variable is its cell; the name denotes the cell's
+		// address, so b.f reads the field as the code does
+		var cell *ssa.Alloc
+		for _, blk := range tr.fn.Blocks {
+			for _, x := range blk.Instrs {
+				if a, ok := x.(*ssa.Alloc); ok && a.Comment == name {
+					if _, isStruct := under(a.Type().(*types.Pointer).Elem()).(*types.Struct); !isStruct || cell != nil {
+						return nil, false
+					}
+					cell = a
+				}
+			}
+		}
+		if cell != nil && (cell.Block() == b || cell.Block().Dominates(b)) {
+			return cell, true
+		}
 		return nil, false
 	}
 	// blocks that can reach b without passing through fb
